@@ -238,11 +238,54 @@ class BusRig:
         self.factory = BusFactory(self.bus)
         self.clients = []        # dicts
         self.n = 0
+        self.after_step = None
+        self.journal = []
 
-    def _server_proto(self):
-        p = t_bus.BusProtocol()
+    def _server_proto(self, name):
+        """BusProtocol with pass-through tracing on its documented hooks: the journal records
+        which incoming message (or disconnect) the bus is processing, so that everything it
+        writes can be attributed to its cause"""
+        journal = self.journal
+        import struct as _struct
+
+        class TracedBusProtocol(t_bus.BusProtocol):
+            def rawDBusMessageReceived(self, raw):
+                e = '<' if raw[:1] == b'l' else '>'
+                journal.append(('in', name, _struct.unpack(e + 'I', raw[8:12])[0]))
+                return t_bus.BusProtocol.rawDBusMessageReceived(self, raw)
+
+            def connectionLost(self, reason):
+                journal.append(('lost', name, None))
+                return t_bus.BusProtocol.connectionLost(self, reason)
+        p = TracedBusProtocol()
         p.factory = self.factory
         return p
+
+    def segment(self, name, serial):
+        """messages the bus wrote (to anybody) while processing message `serial` of `name`:
+        -> {peer name: [Msg]} ; None when that message has not been processed"""
+        out = None
+        for kind, who, what in self.journal:
+            if kind == 'in' or kind == 'lost':
+                if out is not None:
+                    return out
+                if kind == 'in' and who == name and what == serial:
+                    out = {}
+            elif out is not None:
+                out.setdefault(who, []).append(what)
+        return out
+
+    def lost_segment(self, name):
+        out = None
+        for kind, who, what in self.journal:
+            if kind == 'in' or kind == 'lost':
+                if out is not None:
+                    return out
+                if kind == 'lost' and who == name:
+                    out = {}
+            elif out is not None:
+                out.setdefault(who, []).append(what)
+        return out
 
     def add_client(self, unix=None, calm=True):
         """a real DBusClientConnection"""
@@ -257,7 +300,7 @@ class BusRig:
             unix = ds.flag(0.5)
         conn = net.Connection(self.sim, name, node, self.node, unix=unix,
                               creds=(4000 + self.n, 1000, 1000) if self.creds else None)
-        sp = self._server_proto()
+        sp = self._server_proto(name)
         rec = {'name': name, 'node': node, 'proto': proto, 'conn': conn, 'server': sp,
                'connected': obs, 'kind': 'real', 'sent': [], 'rcvd': [], 'bad': []}
         self._tap(rec)
@@ -277,7 +320,7 @@ class BusRig:
         peer = RefBusPeer(name)
         conn = net.Connection(self.sim, name, None, self.node, unix=unix,
                               creds=(4000 + self.n, 1000, 1000) if self.creds else None)
-        sp = self._server_proto()
+        sp = self._server_proto(name)
         rec = {'name': name, 'node': None, 'proto': peer, 'conn': conn, 'server': sp,
                'kind': 'ref', 'sent': [], 'rcvd': [], 'bad': []}
         self._tap(rec)
@@ -317,7 +360,9 @@ class BusRig:
                     return
             for fr in down.feed(data):
                 try:
-                    rec['rcvd'].append(rc.decode_message(fr))
+                    m = rc.decode_message(fr)
+                    rec['rcvd'].append(m)
+                    self.journal.append(('out', rec['name'], m))
                 except rc.CodecError as e:
                     rec['bad'].append(('down', str(e), fr))
         rec['conn'].a.taps.append(tap_up)
@@ -329,6 +374,8 @@ class BusRig:
         return rec['proto'].unique
 
     def calm(self, limit=400):
+        """deliver everything FIFO and whole until quiet; self.after_step (if set) runs after
+        every delivery so that oracles never miss a processing instant"""
         n = 0
         while n < limit:
             pipes = net.deliverable(self.sim)
@@ -339,6 +386,8 @@ class BusRig:
                 los[0].do_lose()
             else:
                 net.deliver(self.sim, pipes[0], len(pipes[0].buf))
+            if self.after_step is not None:
+                self.after_step()
             n += 1
         raise HarnessError('bus calm() did not quiesce')
 
